@@ -771,6 +771,113 @@ bit_case(long idx, void *ctx)
 }
 
 
+/* reading through the write-mode bit element that wrote the data (what the n-bit and skipping-Huffman coders do when
+   a data set is read through the id that wrote it): write every field, then - without ending the access - seek to
+   every field and read it (each read is a write->read switch, mostly with a partly filled byte pending), and finally
+   check the whole element through a fresh read access. Bit-granular overwriting in place through such an access is
+   not part of the alphabet: the library's own callers never do it and HIread2write does not support it. */
+static void
+bitmix_case(long idx, void *ctx)
+{
+    (void)ctx;
+    int  w[4], nw = 0;
+    long x = idx;
+    for (int i = 0; i < 4; i++) {
+        int d = (int)(x % (NW + 1));
+        x /= NW + 1;
+        if (d == 0)
+            break;
+        w[nw++] = WIDTHS[d - 1];
+    }
+    {
+        long y = idx;
+        int  seen0 = 0;
+        for (int i = 0; i < 4; i++) {
+            int d = (int)(y % (NW + 1));
+            y /= NW + 1;
+            if (d == 0)
+                seen0 = 1;
+            else if (seen0)
+                return;
+        }
+    }
+    if (nw < 2)
+        return;
+    int cfg[2] = {4, (int)idx};
+    mc_set_config(cfg, 2, "bitmix");
+    mc_set_case("bit widths %d,%d,%d,%d read back through the writing access", w[0], w[1], nw > 2 ? w[2] : 0, nw > 3 ? w[3] : 0);
+    static uint8 bv[256];
+    long         total = 0, start[5];
+    vfs_remove_file(PATH);
+    fid = Hopen(PATH, DFACC_CREATE, 16);
+    if (fid == FAIL)
+        return;
+    long plan = 0;
+    for (int i = 0; i < nw; i++)
+        plan += w[i];
+    int32 bid = Hstartbitwrite(fid, TAG, 1, (int32)((plan + 7) / 8));
+    if (bid == FAIL) {
+        mc_violation("bitmix:startwrite", "Hstartbitwrite failed");
+        return;
+    }
+    for (int i = 0; i < nw; i++) {
+        uint32 d = pattern(w[i], i);
+        start[i] = total;
+        if (Hbitwrite(bid, w[i], d) != w[i]) {
+            mc_violation("bitmix:write", "Hbitwrite(count %d) returned a different count", w[i]);
+            return;
+        }
+        for (int b = w[i] - 1; b >= 0; b--)
+            bv[total++] = (uint8)((d >> b) & 1u);
+    }
+    start[nw] = total;
+    /* (a) seek + read of every field, last to first, through the writing access; the last field may share its final
+       byte with bits never written, so only fields that end on or before the last whole byte boundary... are all
+       readable: every field lies inside the reserved length */
+    for (int i = nw - 1; i >= 0; i--) {
+        uint32 got = 0, exp;
+        if (Hbitseek(bid, (int32)(start[i] / 8), (int)(start[i] % 8)) == FAIL) {
+            mc_violation("bitmix:seek", "Hbitseek(%ld,%ld) on the writing access failed", start[i] / 8, start[i] % 8);
+            return;
+        }
+        if (start[i] + w[i] > total / 8 * 8 && total % 8)
+            continue; /* reaches into the byte that is still being assembled */
+        if (Hbitread(bid, w[i], &got) != w[i]) {
+            mc_violation("bitmix:read-count", "Hbitread(%d) at bit %ld through the writing access returned a different count", w[i], start[i]);
+            return;
+        }
+        getbits(bv, start[i], w[i], &exp);
+        if (got != exp) {
+            mc_violation("bitmix:value", "field %d (width %d at bit %ld) read through the writing access gives 0x%x, written 0x%x", i, w[i], start[i], got, exp);
+            return;
+        }
+        mc_count("bitmix_reads", 1);
+    }
+    if (Hendbitaccess(bid, 0) == FAIL) {
+        mc_violation("bitmix:end", "Hendbitaccess failed");
+        return;
+    }
+    /* (c) the element as a whole */
+    bid = Hstartbitread(fid, TAG, 1);
+    for (int i = 0; i < nw && bid != FAIL; i++) {
+        uint32 got = 0, exp;
+        if (Hbitread(bid, w[i], &got) != w[i]) {
+            mc_violation("bitmix:read-count", "final Hbitread(%d) at bit %ld returned a different count", w[i], start[i]);
+            break;
+        }
+        getbits(bv, start[i], w[i], &exp);
+        if (got != exp) {
+            mc_violation("bitmix:final-value", "after the mixed session field %d (width %d at bit %ld) reads 0x%x, expected 0x%x", i, w[i], start[i], got, exp);
+            break;
+        }
+    }
+    if (bid != FAIL)
+        Hendbitaccess(bid, 0);
+    Hclose(fid);
+    mc_outcome(mc_hash_i(mc_hash_i(MC_H0, 4), idx));
+}
+
+
 /* large bit elements: the bit layer buffers 4096 bytes at a time; seek/read exactly around the block boundaries */
 static void
 bigbit_case(long idx, void *ctx)
@@ -972,6 +1079,10 @@ C05_main(const char *tier, const char *replay)
             printf("replay C05 large bit element case %d\n", cfg[1]);
             bigbit_case(cfg[1], NULL);
         }
+        else if (cfg[0] == 4) {
+            printf("replay C05 mixed read/write bit case %d\n", cfg[1]);
+            bitmix_case(cfg[1], NULL);
+        }
         else {
             printf("replay C05 bit-I/O case %d\n", cfg[1]);
             bit_case(cfg[1], NULL);
@@ -991,16 +1102,19 @@ C05_main(const char *tier, const char *replay)
     mc_round_begin("bit I/O: every sequence of field widths x re-partition x bit seek");
     mc_foreach(nbit, bit_case, NULL, 1, 120);
     mc_round_end();
+    mc_round_begin("bit I/O: seek + read of every field through the writing access");
+    mc_foreach(nbit, bitmix_case, NULL, 1, 120);
+    mc_round_end();
     mc_round_begin("bit I/O: large elements, seeks around the 4096-byte buffer boundaries");
     mc_foreach(6, bigbit_case, NULL, 1, 300);
     mc_round_end();
-    mc_count("evaluations", NSTR * NCODERS + NNB + nbit + 6);
+    mc_count("evaluations", NSTR * NCODERS + NNB + 2 * nbit + 6);
     mc_rule("byte coders %d x %ld input strings (all binary strings up to length %d, ternary strings with a third symbol, run-structured strings around the "
             "RLE limits 127..131/255..257, alternating mixes, pseudo-random blocks around the 4096/8192 coder buffers): each written under every <=2(3)-call "
             "partition, read back whole, under every 2-call partition and seek/read patterns incl. backward seeks, rewritten in full, reopened; reported "
             "sizes compared with the stored element. n-bit: %ld parameter sets x value families (all 2^8 [2^16 thorough] / boundary families) x 4 read "
             "partitions x 2 sessions against the documented projection. bit I/O: all width sequences of <=%d fields from {1,2,7,8,9,15,16,17,31,32}, "
-            "every 2-read re-partition after bit seeks. distinct = distinct (input,coder) / parameter sets / width sequences completed.",
+            "every 2-read re-partition after bit seeks; the same sequences read back field by field through the writing access. distinct = distinct (input,coder) / parameter sets / width sequences completed.",
             NCODERS, NSTR, thorough ? 12 : 10, NNB, nfields);
     return 0;
 }
